@@ -8,6 +8,8 @@
 package main
 
 import (
+	"fmt"
+
 	"verif/harness/c24/rpcsim"
 	"verif/harness/hc"
 )
@@ -58,10 +60,36 @@ func directed() []rpcsim.Directed {
 	}
 }
 
+// wireDirected: every wire shape of a result and of an RPC error, delivered through
+// mtproto.Conn.handleMessage to a pending call: the call must return the value / that error.
+func wireDirected() []rpcsim.Directed {
+	var ds []rpcsim.Directed
+	for shape := 1; shape < rpcsim.NumShapes; shape++ {
+		r := rpcsim.Option{Kind: "nres", ID: 0, Target: 1, Val: 100, Shape: shape}
+		e := rpcsim.Option{Kind: "nerr", ID: 2, Target: 1, Val: 400, Shape: shape}
+		w := "nwrite 0 ok"
+		if shape == rpcsim.ShapeNestedGz {
+			w = "nwrite 0 err"
+		}
+		ds = append(ds, rpcsim.Directed{Sc: one(fmt.Sprintf("wire-result-shape-%d", shape), 2, r), Script: []string{
+			"start 1 1 7", "sret 1 ok", "nres 0 1 100", "nrun 0", "nrun 0", w, "run 1", "run 1"}})
+		if shape != rpcsim.ShapeNestedGz {
+			ds = append(ds, rpcsim.Directed{Sc: one(fmt.Sprintf("wire-error-shape-%d", shape), 2, e), Script: []string{
+				"start 1 1 7", "sret 1 ok", "nerr 2 1 400", "nrun 2", "nrun 2", "run 1", "run 1"}})
+		}
+	}
+	for shape := 1; shape < rpcsim.NumAckShapes; shape++ {
+		a := rpcsim.Option{Kind: "ack", IDs: []int64{90, 1, 1}, Shape: shape}
+		ds = append(ds, rpcsim.Directed{Sc: one(fmt.Sprintf("wire-ack-shape-%d", shape), 2, a, res0), Script: []string{
+			"start 1 1 7", "sret 1 ok", "ack 90 1 1", "run 1", "nres 0 1 100", "nrun 0", "nrun 0", "nwrite 0 ok", "run 1"}})
+	}
+	return ds
+}
+
 func dfsScenarios() []*rpcsim.Scenario {
 	two := &rpcsim.Scenario{Name: "dfs-two-calls-result-cancel", Cfg: rpcsim.Config{MaxRetries: 1, Interval: 3},
 		Calls: []rpcsim.Option{{Kind: "start", ID: 1, Seq: 1, Body: 7}, {Kind: "start", ID: 2, Seq: 3, Body: 8}},
-		Env: []rpcsim.Option{res0, {Kind: "cancel", ID: 2}}}
+		Env:   []rpcsim.Option{res0, {Kind: "cancel", ID: 2}}}
 	return []*rpcsim.Scenario{
 		one("dfs-result-cancel", 1, res0, cancel),
 		one("dfs-result-fclose", 1, res0, fclose),
@@ -79,6 +107,9 @@ func run(c *hc.Ctx) error {
 	k := &rpcsim.Check{C: c, Prop: "C24", Src: rpcsim.ReadSrc(hc.NewFacts("C24", c.Repo)), W: rpcsim.WeightsC24,
 		Nontrivial: func(s *rpcsim.Sim) bool { return s.Stats["lookup-hit"] > 0 }}
 	if err := k.RunDirected(directed()); err != nil {
+		return err
+	}
+	if err := k.RunDirected(wireDirected()); err != nil {
 		return err
 	}
 	if err := k.RunRandom(c.N(5000, 300000)); err != nil {
